@@ -203,3 +203,91 @@ def all_file_bytes(tokendir):
             except OSError:
                 pass
     return out
+
+
+# ---------------------------------------------------------------------------------------------------------------------
+# SQLite backend: independent decoder (format description: one database `sqlite3.db` per token directory; tables
+# attribute_boolean / attribute_integer / attribute_binary / attribute_array (value, type, object_id); arrays are
+# mechanism sets (native 8-byte integers) or attribute maps (type:8 native, kind:4 native {1 bool(1 byte), 2 integer(8),
+# 3 binary(len:8 + data), 5 mechanism set(len:8 + data)}); the token's own attributes (label, serial, flags, PIN blobs) are the
+# attributes of one of the objects; PIN blobs and private byte strings are encrypted exactly as in the file backend).
+def _decode_db_array(t, b):
+    if t == K.C["CKA_ALLOWED_MECHANISMS"]:
+        if len(b) % 8:
+            raise FormatError("mechanism set of %d bytes" % len(b))
+        return ("mechs", sorted(struct.unpack("<%dQ" % (len(b) // 8), b)))
+    m = {}
+    pos = 0
+    while pos < len(b):
+        if pos + 12 > len(b):
+            raise FormatError("attribute map entry header overruns")
+        tt, kk = struct.unpack("<QI", b[pos:pos + 12])
+        pos += 12
+        if kk == 1:
+            m[tt] = ("bool", b[pos] != 0, b[pos])
+            pos += 1
+        elif kk == 2:
+            m[tt] = ("ulong", struct.unpack("<Q", b[pos:pos + 8])[0])
+            pos += 8
+        elif kk in (3, 5):
+            n = struct.unpack("<Q", b[pos:pos + 8])[0]
+            pos += 8
+            if pos + n > len(b):
+                raise FormatError("attribute map value overruns")
+            m[tt] = ("bytes", b[pos:pos + n]) if kk == 3 else ("mechs", sorted(struct.unpack("<%dQ" % (n // 8), b[pos:pos + n])))
+            pos += n
+        else:
+            raise FormatError("attribute map entry of kind %d" % kk)
+    return ("map", m)
+
+
+class DbTokenDir(TokenDir):
+    """One token directory of the SQLite backend, decoded with Python's sqlite3 (not with the code under test)."""
+
+    def __init__(self, path, ref):
+        import sqlite3
+        self.path = path
+        self.ref = ref
+        self.files = sorted(os.listdir(path))
+        self.raw = {}
+        self.objects = {}
+        self.errors = {}
+        self.token = None
+        db = os.path.join(path, "sqlite3.db")
+        con = sqlite3.connect("file:%s?mode=ro" % db, uri=True)
+        try:
+            objs = {}
+            for (oid,) in con.execute("select id from object"):
+                objs[oid] = {}
+            for oid, t, v in con.execute("select object_id, type, value from attribute_boolean"):
+                objs.setdefault(oid, {})[t] = ("bool", bool(v), v)
+            for oid, t, v in con.execute("select object_id, type, value from attribute_integer"):
+                objs.setdefault(oid, {})[t] = ("ulong", v & 0xFFFFFFFFFFFFFFFF if isinstance(v, int) else v)
+            for oid, t, v in con.execute("select object_id, type, value from attribute_binary"):
+                if t == K.C["CKA_ALLOWED_MECHANISMS"]:
+                    objs.setdefault(oid, {})[t] = _decode_db_array(t, bytes(v) if v is not None else b"")       # mechanism sets live in the binary table
+                else:
+                    objs.setdefault(oid, {})[t] = ("bytes", bytes(v) if v is not None else b"")
+            for oid, t, v in con.execute("select object_id, type, value from attribute_array"):
+                try:
+                    objs.setdefault(oid, {})[t] = _decode_db_array(t, bytes(v) if v is not None else b"")
+                except (FormatError, struct.error, IndexError) as e:
+                    self.errors["object %d" % oid] = "%s: %s" % (K.name("CKA", t), e)
+        except sqlite3.Error as e:
+            raise FormatError("sqlite3.db cannot be read: %s" % e)
+        finally:
+            con.close()
+        for oid, attrs in objs.items():
+            if OS_TOKENLABEL in attrs:
+                self.token = attrs
+            elif attrs:
+                self.objects["object %d" % oid] = attrs
+
+
+def token_dirs(tokendir, ref):        # noqa: F811  (replaces the file-only version above)
+    out = []
+    for d in sorted(os.listdir(tokendir)):
+        p = os.path.join(tokendir, d)
+        if os.path.isdir(p):
+            out.append(DbTokenDir(p, ref) if os.path.isfile(os.path.join(p, "sqlite3.db")) else TokenDir(p, ref))
+    return out
